@@ -875,6 +875,9 @@ class PermitCheck:
 
     def __init__(self, prop):
         self.prop = prop
+        self.fault_kinds = [k for k in self.fault_kinds if prop == "C10" or k not in (
+            "limiter_resize", "resize_below_borrowed", "resize_with_waiters", "extra_release", "set_order")]
+        self.fault_kinds += ["native_cancel_waiter", "native_cancel_granted", "native_cancel_other"]
         self.budgets = {"quick": (500_000, 90), "thorough": (20_000_000, 1500)}
         self.rule_text = (
             "cases = seeded programs (2-5/8 tasks x 1-3/4 cancellable segments x 1-5/7 statements over acquire, "
